@@ -530,6 +530,26 @@ func runOci(mode string, seed int64, tier string, sc *Script) map[string]any {
 					queries("o ", c.store)
 					continue
 				}
+				compare := func() string {
+					verdict := "consistent"
+					s2, err := oci.New(dir)
+					if err != nil {
+						return "cannot-reopen"
+					}
+					for _, q := range [][]string{{"tags", "last=-"}} {
+						if a, b := c.runQuery(c.store, q), c.runQuery(s2, q); a != b {
+							verdict = fmt.Sprintf("tags:live=%s,reopened=%s", a, b)
+						}
+					}
+					for _, n := range u.Nodes {
+						for _, q := range [][]string{{"resolve", fmt.Sprintf("ref=d%d", n.ID)}, {"preds", fmt.Sprint(n.ID)}} {
+							if a, b := c.runQuery(c.store, q), c.runQuery(s2, q); a != b {
+								verdict = fmt.Sprintf("%s-%d:live=%s,reopened=%s", q[0], n.ID, a, b)
+							}
+						}
+					}
+					return verdict
+				}
 				if autosave == 1 && rng.Intn(4) == 0 {
 					// a GC that fails half-way through the blob sweep (an entry it cannot remove):
 					// whatever it did, the live handle and a store opened on the directory now
@@ -539,26 +559,6 @@ func runOci(mode string, seed int64, tier string, sc *Script) map[string]any {
 					os.MkdirAll(filepath.Join(bp, "x"), 0o755)
 					gerr := c.store.GC(ctx)
 					verdict := "consistent"
-					compare := func() string {
-						verdict := "consistent"
-						s2, err := oci.New(dir)
-						if err != nil {
-							return "cannot-reopen"
-						}
-						for _, q := range [][]string{{"tags", "last=-"}} {
-							if a, b := c.runQuery(c.store, q), c.runQuery(s2, q); a != b {
-								verdict = fmt.Sprintf("tags:live=%s,reopened=%s", a, b)
-							}
-						}
-						for _, n := range u.Nodes {
-							for _, q := range [][]string{{"resolve", fmt.Sprintf("ref=d%d", n.ID)}, {"preds", fmt.Sprint(n.ID)}} {
-								if a, b := c.runQuery(c.store, q), c.runQuery(s2, q); a != b {
-									verdict = fmt.Sprintf("%s-%d:live=%s,reopened=%s", q[0], n.ID, a, b)
-								}
-							}
-						}
-						return verdict
-					}
 					if gerr == nil {
 						verdict = "gc-did-not-fail"
 					} else if s2, err := oci.New(dir); err != nil {
@@ -586,18 +586,21 @@ func runOci(mode string, seed int64, tier string, sc *Script) map[string]any {
 					os.RemoveAll(bp)
 					sc.Op(strings.ReplaceAll(verdict, " ", "_"), "o gcpartial")
 					sc.Count("op:gc-partial")
-					if step%2 == 0 {
-						// a GC whose context turns cancelled at the k-th time anything looks at it
-						// (after the entry check, while the graph is rebuilt, during the sweep):
-						// if it reports failure, the live handle and a store opened on the directory
-						// still tell the same story
-						cd := &countdownCtx{Context: ctx, left: 1 + step%4, done: make(chan struct{})}
-						if cerr := c.store.GC(cd); cerr != nil {
-							sc.Op(strings.ReplaceAll(compare(), " ", "_"), "o gcpartial")
+					// fall through to an ordinary GC, which finishes the sweep
+				}
+				if autosave == 1 {
+					// a GC whose context turns cancelled at the k-th time anything looks at it
+					// (after the entry check, while the graph is rebuilt, during the sweep), for
+					// every small k: whether it reports failure or not, the live handle and a
+					// store opened on the directory still tell the same story
+					for k := 1; k <= 5; k++ {
+						cd := &countdownCtx{Context: ctx, left: k, done: make(chan struct{})}
+						cerr := c.store.GC(cd)
+						sc.Op(strings.ReplaceAll(compare(), " ", "_"), "o gcpartial")
+						if cerr != nil {
 							sc.Count("op:gc-cancelled-midway")
 						}
 					}
-					// fall through to an ordinary GC, which finishes the sweep
 				}
 				// stray files next to the blobs (an interrupted download, a README): not blobs, and
 				// no reason to leave garbage behind
